@@ -639,7 +639,7 @@ theorem kbarF_nonneg (bm : BModel) (nu cbar a : ℝ) (hc : 0 ≤ Real.cos a) :
       | exact hc
       | exact Real.sqrt_nonneg _
       | (have := Real.sqrt_nonneg (Real.cos a ^ (4 : ℝ) + Real.sin a * Real.sin a * (Real.cos a * Real.cos a)); nlinarith)
-      | (have := Real.sqrt_nonneg (Real.cos a ^ (4 : ℝ) + Real.sin (2 * a) * Real.sin (2 * a) / (2 - nu * nu)); nlinarith)
+      | (have := Real.sqrt_nonneg (Real.cos a ^ (4 : ℝ) + Real.sin (2 * a) * Real.sin (2 * a) / ((2 - nu) * (2 - nu))); nlinarith)
       | (have := Real.sqrt_nonneg (Real.cos a ^ (4 : ℝ) + Real.sin (2 * a) * Real.sin (2 * a) / (cbar * cbar)); nlinarith)
       | (have := Real.sqrt_nonneg (Real.cos a ^ (4 : ℝ) + 4 * (Real.sin (2 * a) * Real.sin (2 * a)) / (cbar * cbar * ((nu - 2) * (nu - 2)))); nlinarith)
 
@@ -674,8 +674,9 @@ theorem sigTot_smul {lam : ℝ} (hl : 0 ≤ lam) (p : P3 ℝ) (nd : Node ℝ) :
 
 theorem tauOf_smul {lam : ℝ} (hl : 0 ≤ lam) (p : P3 ℝ) (nd : Node ℝ) :
     tauOf (P3.smul lam p) nd = lam * tauOf p nd := by
-  simp only [tauOf, sqrt_def, sigTot_smul hl, sigN_smul]
-  rw [← sqrt_lam_sq hl]; congr 1; ring
+  simp only [tauOf, sqrt_def, sigTot_smul hl, sigN_smul, maxNP_eq]
+  rw [← sqrt_lam_sq hl, mul_max_of_nonneg _ _ (mul_self_nonneg lam), mul_zero]
+  congr 2; ring
 
 theorem shearTerm_smul (bm : BModel) (nu cbar lam tau : ℝ) :
     shearTerm bm nu cbar (lam * tau) = lam * shearTerm bm nu cbar tau := by
@@ -975,5 +976,302 @@ theorem rel_overallLog (panels : List (List (ℝ × ℝ))) :
 
 theorem rel_range {x : ℝ} (hx : x ≤ 0) : 0 < rel x ∧ rel x ≤ 1 :=
   ⟨Real.exp_pos x, Real.exp_le_one_iff.mpr hx⟩
+
+/-! ### uniaxial tension along the polar axis of the orientation grid (Batdorf models) -/
+
+theorem rpow_four (c : ℝ) : c ^ (4 : ℝ) = c * c * (c * c) := by
+  have : (4 : ℝ) = ((4 : ℕ) : ℝ) := by norm_num
+  rw [this, Real.rpow_natCast]; ring
+
+/-- uniaxial stress `σ` along the polar axis of the orientation grid -/
+def polar (σ : ℝ) : P3 ℝ := ⟨σ, 0, 0⟩
+
+theorem polar_sigN (σ a b : ℝ) : sigN (polar σ) (nodeOf a b) = σ * (Real.cos a * Real.cos a) := by
+  simp [sigN, nodeOf, polar]
+
+theorem polar_sigTot {σ a : ℝ} (b : ℝ) (hσ : 0 ≤ σ) (hc : 0 ≤ Real.cos a) :
+    sigTot (polar σ) (nodeOf a b) = σ * Real.cos a := by
+  simp only [sigTot, nodeOf, polar, sqrt_def, cos_def, zero_mul, mul_zero, add_zero]
+  exact Real.sqrt_mul_self (mul_nonneg hσ hc)
+
+theorem polar_tau_sq {σ a : ℝ} (b : ℝ) (hσ : 0 ≤ σ) (hc : 0 ≤ Real.cos a) :
+    tauOf (polar σ) (nodeOf a b) * tauOf (polar σ) (nodeOf a b)
+      = σ * σ * (Real.cos a * Real.cos a) * (Real.sin a * Real.sin a) := by
+  simp only [tauOf, sqrt_def, polar_sigTot b hσ hc, polar_sigN, maxNP_eq]
+  have hs : Real.sin a * Real.sin a = 1 - Real.cos a * Real.cos a := by
+    have := Real.sin_sq_add_cos_sq a; nlinarith
+  have hX : σ * Real.cos a * (σ * Real.cos a) - σ * (Real.cos a * Real.cos a) * (σ * (Real.cos a * Real.cos a))
+      = σ * σ * (Real.cos a * Real.cos a) * (Real.sin a * Real.sin a) := by rw [hs]; ring
+  have h0 : 0 ≤ σ * σ * (Real.cos a * Real.cos a) * (Real.sin a * Real.sin a) :=
+    mul_nonneg (mul_nonneg (mul_self_nonneg σ) (mul_self_nonneg _)) (mul_self_nonneg _)
+  rw [hX, max_eq_left h0]
+  exact Real.mul_self_sqrt h0
+
+/-- the integrand base that `calculate_eq_stress` implies for a uniaxial stress along the polar
+axis: `σ_e = σ · fE(a)` -/
+noncomputable def fE (bm : BModel) (nu cbar a : ℝ) : ℝ :=
+  let c := Real.cos a
+  let s := Real.sin a
+  let s2 := Real.sin (2 * a)
+  match bm with
+  | .mtsG => (1 / 2) * (c * c + Real.sqrt (c ^ (4 : ℝ) + (s * s) * (c * c)))
+  | .mtsP => (1 / 2) * (c * c + Real.sqrt (c ^ (4 : ℝ) + (s2 * s2) / ((2 - nu) * (2 - nu))))
+  | .cseG => c
+  | .cseP => Real.sqrt (c ^ (4 : ℝ) + (s2 * s2) / ((2 - nu) * (2 - nu)))
+  | .smmG => (1 / 2) * (c * c + Real.sqrt (c ^ (4 : ℝ) + (s2 * s2) / (cbar * cbar)))
+  | .smmP => (1 / 2) * (c * c + Real.sqrt (c ^ (4 : ℝ)
+      + (4 * (s2 * s2)) / ((cbar * cbar) * ((nu - 2) * (nu - 2)))))
+
+theorem sigEof_polar (bm : BModel) {nu cbar σ a : ℝ} (b : ℝ) (hσ : 0 ≤ σ) (hc : 0 ≤ Real.cos a)
+    (hnu : nu ≠ 2) (hcb : cbar ≠ 0) :
+    sigEof bm nu cbar (nodeOf a b) (polar σ) = σ * fE bm nu cbar a := by
+  have hT := polar_tau_sq b hσ hc
+  have hN := polar_sigN σ a b
+  have h2 : Real.sin (2 * a) = 2 * Real.sin a * Real.cos a := Real.sin_two_mul a
+  have hnu' : (2 - nu) ≠ 0 := sub_ne_zero.mpr (Ne.symm hnu)
+  have hnu'' : (1 - 1 / 2 * nu) ≠ 0 := by
+    intro h; apply hnu; linarith
+  have hnu3 : (nu - 2) ≠ 0 := sub_ne_zero.mpr hnu
+  set T := tauOf (polar σ) (nodeOf a b) with hTdef
+  set c := Real.cos a with hcdef
+  set s := Real.sin a with hsdef
+  have key : ∀ κ X : ℝ, shearTerm bm nu cbar T * shearTerm bm nu cbar T = κ * (T * T) →
+      X = κ * (c * c) * (s * s) →
+      Real.sqrt (σ * (c * c) * (σ * (c * c)) + shearTerm bm nu cbar T * shearTerm bm nu cbar T)
+        = σ * Real.sqrt (c ^ (4 : ℝ) + X) := by
+    intro κ X h1 h2'
+    rw [h1, hT, h2', rpow_four, ← sqrt_lam_sq hσ]
+    congr 1; ring
+  unfold sigEof
+  rw [hN]
+  cases bm
+  · simp only [sigE, isCSE, fE, sqrt_def, Bool.false_eq_true, if_false]
+    rw [key 1 (s * s * (c * c)) (by simp [shearTerm]) (by ring)]; ring
+  · simp only [sigE, isCSE, fE, sqrt_def, Bool.false_eq_true, if_false]
+    rw [key (1 / ((1 - 1 / 2 * nu) * (1 - 1 / 2 * nu)))
+      (Real.sin (2 * a) * Real.sin (2 * a) / ((2 - nu) * (2 - nu))) (by simp only [shearTerm]; field_simp)
+      (by rw [h2]; field_simp)]; ring
+  · simp only [sigE, isCSE, fE, sqrt_def, if_true]
+    rw [key 1 (s * s * (c * c)) (by simp [shearTerm]) (by ring)]
+    have : c ^ (4 : ℝ) + s * s * (c * c) = c * c := by
+      have := Real.sin_sq_add_cos_sq a
+      rw [rpow_four]; nlinarith
+    rw [this, Real.sqrt_mul_self hc]
+  · simp only [sigE, isCSE, fE, sqrt_def, if_true]
+    rw [key (1 / ((1 - 1 / 2 * nu) * (1 - 1 / 2 * nu)))
+      (Real.sin (2 * a) * Real.sin (2 * a) / ((2 - nu) * (2 - nu))) (by simp only [shearTerm]; field_simp)
+      (by rw [h2]; field_simp)]
+  · simp only [sigE, isCSE, fE, sqrt_def, Bool.false_eq_true, if_false]
+    rw [key (4 / (cbar * cbar)) (Real.sin (2 * a) * Real.sin (2 * a) / (cbar * cbar))
+      (by simp only [shearTerm]; field_simp; ring)
+      (by rw [h2]; field_simp; ring)]; ring
+  · simp only [sigE, isCSE, fE, sqrt_def, Bool.false_eq_true, if_false]
+    rw [key (16 / ((cbar * cbar) * ((2 - nu) * (2 - nu))))
+      (4 * (Real.sin (2 * a) * Real.sin (2 * a)) / ((cbar * cbar) * ((nu - 2) * (nu - 2))))
+      (by simp only [shearTerm]; field_simp; ring)
+      (by rw [h2]; field_simp; ring)]; ring
+
+theorem kbarF_eq_fE (bm : BModel) (nu cbar a : ℝ) :
+    kbarF bm nu cbar a = fE bm nu cbar a := by
+  cases bm <;> rfl
+
+/-- weighted sum of the `k̄` integrand over the grid -/
+noncomputable def kbarI (bm : BModel) (nu cbar m da db : ℝ) (grid : List (Node ℝ)) : ℝ :=
+  sumL (grid.map fun nd => kbarF bm nu cbar nd.a ^ m * nd.s * da * db)
+
+theorem kbar_eq (bm : BModel) (nu cbar m da db : ℝ) (grid : List (Node ℝ)) :
+    kbar bm nu cbar m da db grid = Real.pi / (2 * kbarI bm nu cbar m da db grid) := by
+  unfold kbar kbarI
+  simp only [pi_def, pow_def]
+  rw [← sumL_map_mul_left]
+
+/-- uniaxial tension `σ` along the polar axis of the grid, any crack-density coefficient `kb`:
+the spatial part is `-(2 kb k/π) σ^m I V` with `I` the `k̄`-sum of the current normalisation -/
+theorem batPost_polar_gen (bm : BModel) {kb nu cbar m k V da db σ : ℝ}
+    (pairs : List (ℝ × ℝ)) (hσ : 0 ≤ σ) (hm : 0 < m)
+    (hcos : ∀ ab ∈ pairs, 0 ≤ Real.cos ab.1) (hsin : ∀ ab ∈ pairs, 0 ≤ Real.sin ab.1)
+    (hda : 0 ≤ da) (hdb : 0 ≤ db) (hnu : nu ≠ 2) (hcb : cbar ≠ 0) :
+    batPost kb m k V da db
+        (pairs.map fun ab => nodeOf ab.1 ab.2) (fun nd => sigEof bm nu cbar nd (polar σ))
+      = -(2 * (kb * k) / Real.pi)
+          * (σ ^ m * kbarI bm nu cbar m da db (pairs.map fun ab => nodeOf ab.1 ab.2)) * V := by
+  set grid := pairs.map fun ab => nodeOf ab.1 ab.2 with hgrid
+  set I := kbarI bm nu cbar m da db grid with hIdef
+  have hmem : ∀ nd ∈ grid, ∃ ab ∈ pairs, nd = nodeOf ab.1 ab.2 := by
+    intro nd hnd
+    obtain ⟨ab, hab, rfl⟩ := List.mem_map.mp hnd
+    exact ⟨ab, hab, rfl⟩
+  have hint : batInt m da db grid (fun nd => sigEof bm nu cbar nd (polar σ)) = σ ^ m * I := by
+    rw [batInt_eq, hIdef]
+    unfold S0 kbarI
+    rw [← sumL_map_mul_left]
+    apply sumL_map_congr
+    intro nd hnd
+    obtain ⟨ab, hab, rfl⟩ := hmem nd hnd
+    beta_reduce
+    rw [sigEof_polar bm ab.2 hσ (hcos ab hab) hnu hcb, ← kbarF_eq_fE bm,
+      Real.mul_rpow hσ (kbarF_nonneg bm nu cbar _ (hcos ab hab))]
+    simp only [nodeOf]; ring
+  have hI0 : 0 ≤ I := by
+    apply sumL_nonneg
+    intro y hy
+    obtain ⟨nd, hnd, rfl⟩ := List.mem_map.mp hy
+    obtain ⟨ab, hab, rfl⟩ := hmem nd hnd
+    have h1 : 0 ≤ kbarF bm nu cbar (nodeOf ab.1 ab.2).a ^ m :=
+      Real.rpow_nonneg (kbarF_nonneg bm nu cbar _ (hcos ab hab)) _
+    have h2 : 0 ≤ (nodeOf ab.1 ab.2).s := hsin ab hab
+    positivity
+  unfold batPost
+  rw [hint]
+  simp only [pow_def, pi_def]
+  rw [wrap_id (mul_nonneg (Real.rpow_nonneg hσ _) hI0) hm.ne']
+
+/-- all six Batdorf models, uniaxial tension `σ` along the polar axis of the grid: the spatial part
+gives exactly `-V k σ^m`, because `k̄` is normalised with the same rule. -/
+theorem batPost_polar (bm : BModel) {nu cbar m k V da db σ : ℝ}
+    (pairs : List (ℝ × ℝ)) (hσ : 0 ≤ σ) (hm : 0 < m)
+    (hcos : ∀ ab ∈ pairs, 0 ≤ Real.cos ab.1) (hsin : ∀ ab ∈ pairs, 0 ≤ Real.sin ab.1)
+    (hda : 0 ≤ da) (hdb : 0 ≤ db) (hnu : nu ≠ 2) (hcb : cbar ≠ 0)
+    (hI : kbarI bm nu cbar m da db (pairs.map fun ab => nodeOf ab.1 ab.2) ≠ 0) :
+    batPost (kbar bm nu cbar m da db (pairs.map fun ab => nodeOf ab.1 ab.2)) m k V da db
+        (pairs.map fun ab => nodeOf ab.1 ab.2) (fun nd => sigEof bm nu cbar nd (polar σ))
+      = -V * (k * σ ^ m) := by
+  rw [batPost_polar_gen bm pairs hσ hm hcos hsin hda hdb hnu hcb, kbar_eq]
+  have hpi : Real.pi ≠ 0 := Real.pi_pos.ne'
+  field_simp
+
+/-- the pinned normalisation integrand of `MTSModelPennyShapedFlaw.calculate_kbar` (`2 - ν²`) is
+strictly larger than the one its `calculate_eq_stress` implies (`(2 - ν)²`) at `ν = 0`, `A = π/4`. -/
+theorem pinned_kbarF_gt (cbar : ℝ) :
+    kbarF .mtsP 0 cbar (Real.pi / 4) < kbarFPinnedMtsP 0 (Real.pi / 4) := by
+  have h2 : Real.sin (2 * (Real.pi / 4)) = 1 := by
+    rw [show 2 * (Real.pi / 4) = Real.pi / 2 by ring, Real.sin_pi_div_two]
+  simp only [kbarF, kbarFPinnedMtsP, cos_def, sin_def, sqrt_def, pow_def, h2]
+  have hc : 0 ≤ Real.cos (Real.pi / 4) ^ (4 : ℝ) := by
+    rw [rpow_four]; exact mul_self_nonneg _
+  have hlt : Real.sqrt (Real.cos (Real.pi / 4) ^ (4 : ℝ) + 1 * 1 / ((2 - 0) * (2 - 0)))
+      < Real.sqrt (Real.cos (Real.pi / 4) ^ (4 : ℝ) + 1 * 1 / (2 - 0 * 0)) := by
+    apply Real.sqrt_lt_sqrt
+      (by have : (0 : ℝ) ≤ 1 * 1 / ((2 - 0) * (2 - 0)) := by norm_num
+          linarith)
+    norm_num
+  linarith
+
+/-- **witness for the pinned defect.**  One orientation node at `A = π/4`, `ν = 0`, unit
+increments: with the pinned `k̄` the MTS/penny-shaped model does *not* give the uniaxial Weibull
+law `-V k σ^m` for a uniaxial tension along the polar axis. -/
+theorem pinned_mtsP_witness {cbar m k V σ : ℝ} (hcb : cbar ≠ 0) (hm : 0 < m) (hk : 0 < k)
+    (hV : 0 < V) (hσ : 0 < σ) :
+    batPost (kbarPinnedMtsP 0 m 1 1 ([(Real.pi / 4, (0 : ℝ))].map fun ab => nodeOf ab.1 ab.2)) m k V 1 1
+        ([(Real.pi / 4, (0 : ℝ))].map fun ab => nodeOf ab.1 ab.2)
+        (fun nd => sigEof .mtsP 0 cbar nd (polar σ))
+      ≠ -V * (k * σ ^ m) := by
+  have hc4 : 0 ≤ Real.cos (Real.pi / 4) := by rw [Real.cos_pi_div_four]; positivity
+  have hs4 : 0 < Real.sin (Real.pi / 4) := by rw [Real.sin_pi_div_four]; positivity
+  rw [batPost_polar_gen .mtsP [(Real.pi / 4, (0 : ℝ))] hσ.le hm
+    (by intro ab hab; rw [List.mem_singleton] at hab; subst hab; exact hc4)
+    (by intro ab hab; rw [List.mem_singleton] at hab; subst hab; exact hs4.le)
+    zero_le_one zero_le_one (by norm_num) hcb]
+  set f := kbarF .mtsP 0 cbar (Real.pi / 4) with hf
+  set fP := kbarFPinnedMtsP (0 : ℝ) (Real.pi / 4) with hfP
+  have hlt : f < fP := pinned_kbarF_gt cbar
+  have hf0 : 0 ≤ f := kbarF_nonneg .mtsP 0 cbar _ hc4
+  have hpow : f ^ m < fP ^ m := Real.rpow_lt_rpow hf0 hlt hm
+  have hfm0 : 0 ≤ f ^ m := Real.rpow_nonneg hf0 _
+  have hI : kbarI .mtsP 0 cbar m 1 1 ([(Real.pi / 4, (0 : ℝ))].map fun ab => nodeOf ab.1 ab.2)
+      = f ^ m * Real.sin (Real.pi / 4) := by
+    simp [kbarI, sumL, nodeOf, hf]
+  have hK : kbarPinnedMtsP 0 m 1 1 ([(Real.pi / 4, (0 : ℝ))].map fun ab => nodeOf ab.1 ab.2)
+      = Real.pi / (2 * (fP ^ m * Real.sin (Real.pi / 4))) := by
+    simp [kbarPinnedMtsP, sumL, nodeOf, hfP]
+  rw [hI, hK]
+  have hpi : 0 < Real.pi := Real.pi_pos
+  have hσm : 0 < σ ^ m := Real.rpow_pos_of_pos hσ m
+  have hfPm : 0 < fP ^ m := lt_of_le_of_lt hfm0 hpow
+  set s4 := Real.sin (Real.pi / 4)
+  intro h
+  have e : -(2 * (Real.pi / (2 * (fP ^ m * s4)) * k) / Real.pi) * (σ ^ m * (f ^ m * s4)) * V
+      = -V * (k * σ ^ m) * (f ^ m / fP ^ m) := by
+    field_simp
+  rw [e] at h
+  have hne : V * (k * σ ^ m) ≠ 0 := by positivity
+  have h1 : f ^ m / fP ^ m = 1 := by
+    have : V * (k * σ ^ m) * (f ^ m / fP ^ m) = V * (k * σ ^ m) * 1 := by linarith
+    exact mul_left_cancel₀ hne this
+  rw [div_eq_one_iff_eq hfPm.ne'] at h1
+  linarith
+
+/-! ### averaging over quadrature points commutes with rotation -/
+
+def Sym3.add (S T : Sym3 ℝ) : Sym3 ℝ :=
+  ⟨S.xx + T.xx, S.yy + T.yy, S.zz + T.zz, S.yz + T.yz, S.xz + T.xz, S.xy + T.xy⟩
+def Sym3.smul (c : ℝ) (S : Sym3 ℝ) : Sym3 ℝ :=
+  ⟨c * S.xx, c * S.yy, c * S.zz, c * S.yz, c * S.xz, c * S.xy⟩
+def Sym3.zero : Sym3 ℝ := ⟨0, 0, 0, 0, 0, 0⟩
+
+def sumSym : List (Sym3 ℝ) → Sym3 ℝ
+  | [] => Sym3.zero
+  | S :: t => Sym3.add S (sumSym t)
+
+/-- component-wise mean of the tensors at the quadrature points of an element -/
+noncomputable def meanSym (l : List (Sym3 ℝ)) : Sym3 ℝ :=
+  ⟨meanL (l.map (·.xx)), meanL (l.map (·.yy)), meanL (l.map (·.zz)),
+   meanL (l.map (·.yz)), meanL (l.map (·.xz)), meanL (l.map (·.xy))⟩
+
+theorem meanStored_storedOf (l : List (Sym3 ℝ)) :
+    meanStored (l.map storedOf) = storedOf (meanSym l) := by
+  simp only [meanStored, meanSym, storedOf, List.map_map, Function.comp_def]
+
+theorem toMatrix_add (S T : Sym3 ℝ) : (Sym3.add S T).toMatrix = S.toMatrix + T.toMatrix := by
+  ext i j
+  fin_cases i <;> fin_cases j <;> simp [Sym3.toMatrix, Sym3.add]
+
+theorem toMatrix_smul (c : ℝ) (S : Sym3 ℝ) : (Sym3.smul c S).toMatrix = c • S.toMatrix := by
+  ext i j
+  fin_cases i <;> fin_cases j <;> simp [Sym3.toMatrix, Sym3.smul]
+
+theorem rotate_add (Q : Matrix (Fin 3) (Fin 3) ℝ) (S T : Sym3 ℝ) :
+    rotate Q (Sym3.add S T) = Sym3.add (rotate Q S) (rotate Q T) := by
+  unfold rotate
+  rw [toMatrix_add, Matrix.mul_add, Matrix.add_mul]
+  simp only [Sym3.ofMatrix, Sym3.add, Matrix.add_apply]
+
+theorem rotate_smul (Q : Matrix (Fin 3) (Fin 3) ℝ) (c : ℝ) (S : Sym3 ℝ) :
+    rotate Q (Sym3.smul c S) = Sym3.smul c (rotate Q S) := by
+  unfold rotate
+  rw [toMatrix_smul, Matrix.mul_smul, Matrix.smul_mul]
+  simp only [Sym3.ofMatrix, Sym3.smul, Matrix.smul_apply, smul_eq_mul]
+
+theorem rotate_zero (Q : Matrix (Fin 3) (Fin 3) ℝ) : rotate Q Sym3.zero = Sym3.zero := by
+  have h : Sym3.zero.toMatrix = 0 := by
+    ext i j
+    fin_cases i <;> fin_cases j <;> simp [Sym3.toMatrix, Sym3.zero]
+  unfold rotate
+  rw [h, Matrix.mul_zero, Matrix.zero_mul]
+  simp [Sym3.ofMatrix, Sym3.zero]
+
+theorem rotate_sumSym (Q : Matrix (Fin 3) (Fin 3) ℝ) (l : List (Sym3 ℝ)) :
+    rotate Q (sumSym l) = sumSym (l.map (rotate Q)) := by
+  induction l with
+  | nil => exact rotate_zero Q
+  | cons S t ih => simp only [sumSym, List.map_cons, rotate_add, ih]
+
+theorem sumSym_comp (l : List (Sym3 ℝ)) :
+    sumSym l = ⟨sumL (l.map (·.xx)), sumL (l.map (·.yy)), sumL (l.map (·.zz)),
+      sumL (l.map (·.yz)), sumL (l.map (·.xz)), sumL (l.map (·.xy))⟩ := by
+  induction l with
+  | nil => simp [sumSym, Sym3.zero, sumL]
+  | cons S t ih => simp only [sumSym, ih, Sym3.add, List.map_cons, sumL]
+
+theorem meanSym_eq (l : List (Sym3 ℝ)) :
+    meanSym l = Sym3.smul (1 / (l.length : ℝ)) (sumSym l) := by
+  rw [sumSym_comp]
+  simp only [meanSym, meanL, Sym3.smul, List.length_map, ofNat_def]
+  congr 1 <;> ring
+
+/-- the mean over the quadrature points of the rotated tensors is the rotated mean -/
+theorem meanSym_rotate (Q : Matrix (Fin 3) (Fin 3) ℝ) (l : List (Sym3 ℝ)) :
+    meanSym (l.map (rotate Q)) = rotate Q (meanSym l) := by
+  rw [meanSym_eq, meanSym_eq, rotate_smul, rotate_sumSym, List.length_map]
 
 end SrModel.Ceramic
